@@ -128,7 +128,10 @@ def stepInE (g : AGraph) (labels : List String) (t : Traveler) : List Traveler :
 def keepHas (numOf : String → Option Int) (x : C08.HasE) (t : Traveler) : Bool :=
   evalHas numOf t.value x
 
-def keepHasLabel (labels : List String) (t : Traveler) : Bool := labels.contains (curLabel t)
+/-- HasLabel: `if !t.IsNull() && contains(labels, t.GetCurrent().Label)` — a row without a
+    current element is dropped whatever the labels are (even the label ""). -/
+def keepHasLabel (labels : List String) (t : Traveler) : Bool :=
+  t.cur.isSome && labels.contains (curLabel t)
 def keepHasId (ids : List String) (t : Traveler) : Bool := ids.contains (curId t)
 /-- HasKey: every key must exist (`found` is cleared by any missing key). -/
 def keepHasKey (keys : List String) (t : Traveler) : Bool := keys.all t.fieldExists
@@ -227,7 +230,10 @@ def fieldKeys (keys : List String) : List (List String) × List (List String) :=
 
 def stepFields (keys : List String) (t : Traveler) : Traveler :=
   let (incl, excl) := fieldKeys keys
-  let cur := t.cur.getD {}
+  -- `cde = t.GetCurrent(); if cde == nil { return t }`: nothing to select from (a *Null row)
+  match t.cur with
+  | none => t
+  | some cur =>
   let cde := if excl.isEmpty then cur else excludeFields cur excl
   let data0 : JV := if excl.isEmpty then .obj [] else cde.data
   let ode : Elem := { gid := cde.gid, label := cde.label, frm := cde.frm, to := cde.to, data := data0 }
